@@ -151,6 +151,8 @@ func init() {
 		[]Stage{bfs("lsm", 4, 60, prm("oracle", "c14", "keys", 3, "reopen", true)),
 			// drops: DropPrefix over a deeper level holding one table per key pair (rewrites of non-adjacent tables must not overlap the table between them)
 			bfs("lsm", 2, 40, prm("oracle", "c29", "mode", "normal", "keyset", "drop", "keys", 6, "drops", true, "reopen", true, "snapshots", false, "l0_tables", 1, "value_threshold", 1024, "big_size", 400, "ops", "Sp1a Sq F C0 Yp1 Yp1,q Yp1a,qq Yp1a,p1 V R"), seq("Bp1a Bp1b Bp2a Bp2b Bq Bqq F C0")),
+			// many retained versions of one key, more than a table holds: an output table must not be cut between two versions of a key
+			bfs("lsm", 3, 30, prm("oracle", "c14", "keys", 2, "nvk", 100, "big", true, "value_threshold", 1024, "big_size", 400, "l0_tables", 1, "ops", "Ba Bb F C0"), seq("Ba Ba Ba Ba Ba"), seq("Ba Ba Ba Bb Ba Ba F C0 Ba Ba")),
 			// crash-interrupted histories and stream-writer loads: the recovered / loaded tree must be well formed too
 			en("crash08", 16, 40, prm("oracle", "c14", "len", 3, "alphabet", "T2 WB F C DP")), en("c26sw", 16, 30, nil)},
 		[]Stage{bfs("lsm", 6, 600, prm("oracle", "c14", "keys", 3, "reopen", true)),
